@@ -18,6 +18,7 @@ init_idn (eav_t *eav)
     r = idn_resconf_initialize ();
 
     if (r != idn_success) {
+        eav->errcode = EEAV_IDN_ERROR;
         eav->idnmsg = idn_result_tostring (r);
         return inverse(EEAV_IDN_ERROR);
     }
@@ -25,6 +26,7 @@ init_idn (eav_t *eav)
     r = idn_resconf_create (&(eav->idn));
 
     if (r != idn_success) {
+        eav->errcode = EEAV_IDN_ERROR;
         eav->idnmsg = idn_result_tostring (r);
         return inverse(EEAV_IDN_ERROR);
     }
